@@ -228,6 +228,15 @@ def renderRFC3339 (ns : Int) : String :=
 
 /-! ### convertStringToXSDValue -/
 
+/-- the switch of convertStringToXSDValue as tables (compared with the source's own case lists on every run,
+    `SourceFacts.xsd_*_is_models`; `Props.C04.convert_bool_by_table`, `isIntType_by_table`, `convert_other_is_string` relate
+    them to `convert`) -/
+def boolFalseLex : List String := ["false", "0", "0.0E0"]
+def boolTrueLex : List String := ["true", "1", "1.0E0"]
+def intTypeNames : List String := ["positiveInteger", "nonNegativeInteger", "integer", "negativeInteger", "nonPositiveInteger"]
+/-- every case list of the outer switch, in order; everything else is kept as the string it is -/
+def convertCases : List (List String) := [["boolean"], intTypeNames, ["dateTime"], ["double"]]
+
 def convert (canon : String → Option String) (dt lex : String) (p : Nat) : Except String XVal :=
   if dt = tBoolean then
     if lex = "false" || lex = "0" || lex = "0.0E0" then .ok (.bool false)
